@@ -6,6 +6,10 @@ ids = [json.loads(l)['id'] for l in open(os.path.join(ROOT, 'properties.jsonl'))
 TECH = 'bounded symbolic execution of the clang-14 LLVM IR of the real sources (own path-forking executor, engine S), assertions and branch feasibility decided by z3; counterexamples replayed on the g++ build'
 NOTE = 'Trusted: clang-14 -O1 lowering, engine S (validated on every run by concrete differential runs against the native build), z3, the environment models listed in the evidence (operator new/delete never fail; libstdc++ out-of-line functions modelled). Nothing is claimed outside the bounds recorded in the evidence.'
 CLAIMED = {
+ 'C02': ('4 C02', 'One path family per factory of the implementation (zoo.h, ~135 factory cases covering ~250 overloads): operands picked symbolically (two distinct candidates per argument), every enumerator/flag/level/location/qualifier argument a full-width symbolic value, every documented accessor and alias compared with the argument given; optional parts absent until set.'),
+ 'C06': ('4 C06', 'Every Node-derived object of the zoo: category code, accept() dispatch recorded by a visitor overriding all hooks, default forwarding to the nearest abstract super-category computed independently with std::is_base_of, view<K> for every leaf category K (list regenerated from node-category each run).'),
+ 'C09': ('4 C09', 'Every expression-yielding factory of the zoo: kind-fixed, borrowed or given type for symbolically picked operands; logic_error where nothing was given; product types of scopes / parameter lists / expression lists re-read after each of K additions.'),
+ 'C14': ('4 C14', 'Accessor sweep over every object of the zoo (about 190 accessor names probed per interface class), sequences indexed with a fully symbolic 64-bit index for 12 implementations, checked pointers: outcome is a valid result or a logic_error; every memory access of every path is a checked access in the engine (null / out of bounds / freed / dead stack).'),
  'C07': ('4 C07', 'Declaration histories of length K (quick 4, thorough 5) over 3x3 (name,type) pairs covering all eight declaration kinds, with a shadow model checked after every step (entry order, product type, name lookup, selection by type, name/type/master/decl_set of every declaration); homogeneous scopes with 0..3 members.'),
  'C12': ('4 C12', 'Histories of K region-opening operations (13 constructs) under symbolically chosen parents (arbitrary depth and creation order within K; quick 3, thorough 4): enclosing/owner/global/outward walk; handler region shape; member home regions, fully symbolic nesting level, positions; units and modules.'),
  'C01': ('4 C01', 'Two requests to every type constructor over address-sorted operand pools, long and short request forms chosen symbolically; mixed-constructor histories; normal forms with a symbolic linkage spelling; products/sums through warehouses and caller-owned sequences with symbolic lengths: same node <=> same canonical arguments on every path. Tree shapes under longer histories are C08.'),
